@@ -50,8 +50,22 @@ def example(draw, tier):
         head = ["scen gp_" + flavor, "cfg membarrier %d" % (draw(st.integers(0, 1)) if flavor in ("memb", "bp") else 1)]
         nd = 0
     out = []
+    aim = []
+    if fam == "cds" and kind in ("wfcq", "wfs") and draw(st.booleans()):
+        # aim the freeze: one enqueue/push of a non-solo thread is stalled at one of its first scheduling points (between the tail exchange and the
+        # link, among others) for longer than the freeze range, so that the freeze finds it there far more often than a uniform freeze step does
+        cand = []
+        per = {}
+        for l in prog:
+            if l.startswith("T") and not l.startswith("T%d " % solo):
+                t = int(l[1:l.index(" ")]); i = per.get(t, 0); per[t] = i + 1
+                if t > 0 and l.split()[1] == "enq":
+                    cand.append((t, i))
+        if cand:
+            t, i = draw(st.sampled_from(cand))
+            aim = ["stall %d %d %d %d" % (t, i, draw(st.integers(1, 8)), 600)]
     for _ in range(gen.BATCH):
-        sched = gen.schedule_lines(draw, tier, len(nops), nops, ndaemons=nd)
+        sched = gen.schedule_lines(draw, tier, len(nops), nops, ndaemons=nd) + aim
         f = draw(st.integers(*frange))
         out.append("\n".join(head + prog + sched + ["freeze %d %d" % (f, solo)] + gen.budget_lines(prog)) + "\n")
     return out
